@@ -882,7 +882,7 @@ fn try_to_vec<'a, T: Elem + 'a>(s: S<'a, TResult<T>>) -> Result<SinkRes, String>
     })
 }
 
-fn write_into<'a, T: Elem + 'a>(s: S<'a, T>, buf: BufKind, len: usize) -> Result<SinkRes, String> {
+fn write_into<'a, T: Elem + 'a>(s: S<'a, T>, buf: BufKind, len: usize, slack: usize) -> Result<SinkRes, String> {
     use std::mem::MaybeUninit;
     let it = s.into_fw();
     let mk = |result: TResult<()>, slots: Vec<Option<Obs>>| {
@@ -903,6 +903,8 @@ fn write_into<'a, T: Elem + 'a>(s: S<'a, T>, buf: BufKind, len: usize) -> Result
     Ok(match buf {
         BufKind::Slice => {
             let mut u: Vec<MaybeUninit<T>> = <Vec<T> as Vec1<T>>::uninit(len);
+            // the caller's buffer is an ordinary Vec: it may own more capacity than length
+            u.reserve_exact(slack);
             if u.len() != len {
                 return Err(format!("Vec::uninit({len}) has length {}", u.len()));
             }
@@ -1002,6 +1004,7 @@ fn write_into<'a, T: Elem + 'a>(s: S<'a, T>, buf: BufKind, len: usize) -> Result
         BufKind::OwnedVec => {
             // UninitVec::set (bounds-checked) item by item, then assume_init
             let mut u: Vec<MaybeUninit<T>> = <Vec<T> as Vec1<T>>::uninit(len);
+            u.reserve_exact(slack);
             for slot in u.iter_mut() {
                 slot.write(T::sentinel());
             }
@@ -1035,7 +1038,7 @@ fn sink_value<'a, T: Elem + 'a>(s: S<'a, T>, sink: &Sink, remaining: usize) -> R
         Sink::TrustedVec1(c) => collect_into(s, *c, 0, remaining),
         Sink::PlainVec1(c) => collect_into(s, *c, 1, remaining),
         Sink::WithLen(c) => collect_into(s, *c, 2, remaining),
-        Sink::Write { buf, len } => write_into(s, *buf, *len),
+        Sink::Write { buf, len, slack } => write_into(s, *buf, *len, *slack),
         _ => bad(format!("sink {} not available for a value stream", sink.kind())),
     }
 }
